@@ -9,7 +9,7 @@ use std::time::{Duration, SystemTime, UNIX_EPOCH};
 
 const NS: i128 = 1_000_000_000;
 
-fn set_times(p: &Path, atime_ns: i128, mtime_ns: i128) {
+pub(crate) fn set_times(p: &Path, atime_ns: i128, mtime_ns: i128) {
     let c = std::ffi::CString::new(p.to_str().unwrap()).unwrap();
     let ts = [
         libc::timespec { tv_sec: (atime_ns.div_euclid(NS)) as i64, tv_nsec: (atime_ns.rem_euclid(NS)) as i64 },
@@ -20,7 +20,7 @@ fn set_times(p: &Path, atime_ns: i128, mtime_ns: i128) {
 }
 
 /// (atime, ctime, mtime) in ns as lstat reports them
-fn times_of(p: &Path) -> (i128, i128, i128) {
+pub(crate) fn times_of(p: &Path) -> (i128, i128, i128) {
     let m = std::fs::symlink_metadata(p).unwrap();
     (
         m.atime() as i128 * NS + m.atime_nsec() as i128,
@@ -29,15 +29,15 @@ fn times_of(p: &Path) -> (i128, i128, i128) {
     )
 }
 
-fn sys_time(ns: i128) -> SystemTime {
+pub(crate) fn sys_time(ns: i128) -> SystemTime {
     UNIX_EPOCH + Duration::new((ns / NS) as u64, (ns % NS) as u32)
 }
 
-fn bits(v: &[bool]) -> String {
+pub(crate) fn bits(v: &[bool]) -> String {
     if v.is_empty() { ".".into() } else { v.iter().map(|b| if *b { '1' } else { '0' }).collect() }
 }
 
-fn selected(out: &[u8], n: usize) -> Vec<bool> {
+pub(crate) fn selected(out: &[u8], n: usize) -> Vec<bool> {
     let mut v = vec![false; n];
     for p in out.split(|b| *b == 0).filter(|p| !p.is_empty()) {
         let name = String::from_utf8_lossy(p);
